@@ -8,7 +8,7 @@ COQ_FILES = ["Props/C04.v", "Props/C04_reason.v", "Props/C04_goal.v", "Obl/Dispa
 
 
 def correspondence(ctx):
-    n = 400 if ctx.tier == "thorough" else 50
+    n = 400 if ctx.tier == "thorough" else 52
     CC.run_sessions(ctx, "C04", n, lambda rng: dict(n_events=rng.choice([40,70]), burst=0.2, fault=0.03, bad=0.05, resets=0.08), lambda rng: dict(max_steps=rng.choice([None,1,2,3,4,6])))
     # the goal check itself against Model/Goal.v (generated goal / view pairs)
     from props import goalcorr
